@@ -750,6 +750,21 @@ def run_check(tier, seed):
         V.cov['samples'] = [klines[0], klines[len(klines) // 3], klines[len(klines) // 2], klines[-1]] + \
                            ([script[3], script[len(script) // 2]] if len(script) > 4 else []) + \
                            ['theorem checkSCS_iff_partial (c r) (hne : r.dims ≠ []) (hs : ∀ d ∈ r.dims, 0 ≤ d.shape) (hstr : r.hasStride → c.needCount) (henv : NoOvf r) : checkSCS c64 c r = NC_NOERR ↔ InBounds c r']
+        # ---- S4m API-level "mix" programs (checks/apigen.gen_mix_program): several interleaving strided nonblocking requests per
+        #      rank completed by one wait, varn calls with many permuted segments, 1-3 ranks, against the abstract dataset
+        #      specification (lean/Driver/Api.lean) -- reaches vars_flatten / mgetput coalescing / merge of interleaved lists
+        import apigen, apicmp
+        mix_fail = 0
+        if os.path.exists(apicmp.APIDRV):
+            aexe = apicmp.build_apirun(tree, wd)
+            nmix = 100 if tier == 'thorough' else 30
+            mrng = SplitMix64(seed * 104729 + 17)
+            ml_, mt_, mix_fail, mn_ = apicmp.run_programs(
+                V, aexe, wd, ((apigen.gen_mix_program(mrng, 'c15_m%d.nc' % k_, n_), n_) for k_ in range(nmix) for n_ in [mrng.choice([1, 1, 2, 3])]),
+                tier, 'C15:api-mix', 'accepted multi-request program touched elements it did not address or missed addressed ones', tagprefix='mix')
+            V.cov['evaluations'] += ml_
+            V.cov['distribution'] = dict(V.cov['distribution'], mix_programs=mn_, mix_result_lines=ml_, mix_tags=mt_)
+            V.cov['distinct_nontrivial'] += len(mt_)
         # ---- S5
         new_fail, seen_sig = 0, set()
         for sig, what, rep in prop_fail:
@@ -757,7 +772,7 @@ def run_check(tier, seed):
                 new_fail += 1
                 if new_fail >= 5:
                     break
-        if new_fail == 0:
+        if new_fail == 0 and mix_fail == 0:
             if tie_diffs:
                 V.broken_tie('correspondence streams unit/api: model and implementation differ', tie_diffs[:10])
             if proof_broken:
